@@ -334,6 +334,8 @@ impl Compiler {
             self.compile_statement(stmt)?;
         }
         self.scopes[self.scope_index].scope_depth -= 1;
+        let depth = self.scopes[self.scope_index].scope_depth;
+        self.symtab.leave_block(depth);
         Ok(())
     }
 
